@@ -27,7 +27,7 @@ def run(chk):
         def cb(o):
             fo.write(json.dumps(o, separators=(",", ":")))
             fo.write("\n")
-        for kinds, name in ((["static", "dynamic", "notfound", "notallowed", "panic", "foreign"], "no hook"),
+        for kinds, name in ((["static", "dynamic", "optional", "notfound", "notallowed", "panic", "foreign"], "no hook"),
                             (["static", "dynamic", "notfound", "panichook"], "OnPanic hook")):
             res = core.run_tlc("MC_Pool", cfg_text=pcfg(kinds, 3, 1 if not thorough else 2), timeout=1800, keep_lines=False, line_cb=cb)
             chk.expect_holds(res, "Pristine (%s)" % name)
